@@ -230,6 +230,7 @@ func runKeepAliveExecution(t *testing.T, seed int64, log *traceLog) {
 					break
 				}
 				time.Sleep(time.Duration(rng.Intn(200)) * time.Second)
+				oldRelay := relay
 				relay, err = cl.Allocate()
 				if err != nil {
 					log.add(map[string]any{"e": "AllocateFailed", "err": err.Error()})
@@ -239,6 +240,12 @@ func runKeepAliveExecution(t *testing.T, seed int64, log *traceLog) {
 				}
 				relayAddr, _ = relay.LocalAddr().(*net.UDPAddr)
 				written = map[string]bool{}
+				if rng.Intn(2) == 0 {
+					// a deferred / defensive second Close of the socket that is closed already: an error for the
+					// caller, nothing for the socket that is open now
+					_ = oldRelay.Close()
+					synctest.Wait()
+				}
 				if listenOnly != "" { // the new allocation knows nothing of the old one's permissions
 					pa, _ := w.peers[listenOnly].LocalAddr().(*net.UDPAddr)
 					if err := cl.CreatePermission(pa); err != nil {
